@@ -70,7 +70,7 @@ CHECKS.update({
               "re-exports and repeated build_query must agree.", "DESIGN.md section 6 C10",
               "property-based testing of sharing histories (Hypothesis): structural fingerprints + fresh-vs-reused metamorphic oracle"),
     "C12": _c("For generated pipelines over sized-integer / Float32 tables the static dtype of every output column is "
-              "compared with the exported Polars dtype (exact on Polars, numeric family on SQLite, Null only for all-null "
+              "compared with the exported Polars dtype (exact on Polars, same family up to the width on SQLite, Null only for all-null "
               "columns) and Table(exported) / collect() round trips must reproduce the dtypes.", "DESIGN.md section 6 C12",
               "property-based testing (Hypothesis), static-vs-dynamic oracle"),
     "C14": _c("A generated valid history is followed by one verb call with exactly one offender from a catalogue (expression "
